@@ -44,9 +44,12 @@ pub proof fn axiom_chain_range_empty(a: u64, b: u64)
     requires b + 1 == a
     ensures spec_chain_range(a, b) == Seq::<ChainOutT>::empty()
 { }
+// the MMR index range of the blocks [start_height, end_height] (A-node: a function of the heights during one call)
+pub uninterp spec fn spec_pmmr_range(start_height: u64, end_height: Option<u64>) -> (u64, u64);
 pub trait ScanNodeClient: Sized {
     // PMMR index range of the outputs created in blocks [start_height, end_height] — any answer, may fail
-    fn height_range_to_pmmr_indices(&self, start_height: u64, end_height: Option<u64>) -> (r: Result<(u64, u64), Error>);
+    fn height_range_to_pmmr_indices(&self, start_height: u64, end_height: Option<u64>) -> (r: Result<(u64, u64), Error>)
+        ensures r matches Ok(rg) ==> rg == spec_pmmr_range(start_height, end_height);
     // (last available index (capped by end), last index retrieved, the outputs with index in [start, last retrieved])
     fn get_outputs_by_pmmr_index(&self, start_index: u64, end_index: Option<u64>, max_outputs: u64) -> (r: Result<(u64, u64, Vec<ChainOutT>), Error>)
         ensures r matches Ok((highest, last, outs)) ==> outs@ == spec_chain_range(start_index, last) && start_index <= last + 1 && last < u64::MAX;
